@@ -5,7 +5,7 @@
 From Coq Require Import List NArith ZArith Bool Arith Lia Permutation.
 From Common Require Import Outcome.
 From Gen Require Import Consts C07.
-From C07 Require Import Model Shape Proofs Proofs_text Proofs_term Proofs_len Proofs_match Proofs_safe Proofs_stack Proofs_full.
+From C07 Require Import Model Shape Proofs Proofs_text Proofs_term Proofs_len Proofs_match Proofs_safe Proofs_stack Proofs_full Proofs_err.
 Import ListNotations.
 
 (* C07 "terminates": for ANY lookup list (any shape, also shapes the reader
@@ -124,3 +124,11 @@ Theorem fix_stack_merge_preserves :
   stack_ok (n - length mnew) (b - length mnew) (fix_merge (a :: mnew) k).
 Proof. exact stack_ok_merge. Qed.
 Print Assumptions fix_stack_merge_preserves.
+
+(* Altogether: on a context with an empty stack every Apply call returns - a
+   sequence, and the empty stack again. *)
+Theorem apply_returns :
+  forall ll gd, reader_shape ll = true -> implemented ll = true ->
+  forall lookups s, exists s', M_shape ll gd lookups [] s = Ok (s', []).
+Proof. exact apply_total. Qed.
+Print Assumptions apply_returns.
